@@ -133,6 +133,12 @@ theorem head?_ptokPartialsX_eq (q : PTok) (l : List PartialToken)
     · simp at h
   all_goals exact head?_ptokPartials_eq _ l h
 
+/-- only a word token starts with a `.literal` partial token -/
+theorem head?_ptokPartialsX_literal (q : PTok) (l : List PartialToken) (w' : Str)
+    (h : (ptokPartialsX q ++ l).head? = some (.literal w')) : isWordTok q.tok = true := by
+  obtain ⟨tok, text⟩ := q
+  cases tok <;> first | rfl | (exfalso; simp [ptokPartialsX, ptokPartials] at h)
+
 theorem ptokPartialsX_sign_literal (q : PTok) (m : List PartialToken) (a : PartialToken) (w' : Str)
     (h1 : (ptokPartialsX q ++ m).head? = some a)
     (h2 : (ptokPartialsX q ++ m).tail.head? = some (.literal w'))
